@@ -59,6 +59,12 @@ def cases(tier, seed):
             if emb == "cadj" and m != n:
                 continue
             out.append({"key": f"{emb}/{m}x{n}", "emb": emb, "m": m, "n": n})
+    # shapes with a dimension equal to 4 (the number of components: layouts (4,m,n), (m,n,4), (4,m,4) become ambiguous) and 8
+    for (m, n) in ((1, 4), (4, 1), (4, 4), (2, 4), (4, 2), (3, 4), (4, 3), (5, 4), (6, 4), (4, 8), (8, 4)):
+        if (m, n) not in [(a, b) for a in range(1, S + 1) for b in range(1, S + 1)]:
+            out.append({"key": f"split_merge/{m}x{n}", "emb": "split_merge", "m": m, "n": n})
+            out.append({"key": f"Realp/{m}x{n}", "emb": "Realp", "m": m, "n": n})
+            out.append({"key": f"real_expand/{m}x{n}", "emb": "real_expand", "m": m, "n": n})
     for emb in ("real_expand", "Realp", "cadj"):
         for m, k, n in itertools.product(range(1, S + 1), repeat=3):
             if emb == "cadj" and not (m == k == n):
@@ -263,6 +269,12 @@ def run_case(case, seed):
                 ok, back = call(solver._components_to_quat, *r)
                 if not ok or G.from_quat(back).tobytes() != np.ascontiguousarray(A).tobytes():
                     fails.append(fail("components_round_trip", f"class {cls}", cls=cls, **tags))
+            # the component format itself, in every container the fallback branch accepts: tuple, list, ndarray stacked on axis 0
+            for cname, cont in (("tuple", (c0, c1, c2, c3)), ("list", [c0, c1, c2, c3]), ("stacked_axis0", np.stack([c0, c1, c2, c3], axis=0))):
+                ok, r = call(solver._quat_to_components, cont)
+                evals += 1
+                if not ok or len(r) != 4 or any(np.asarray(x).shape != y.shape or np.ascontiguousarray(x).tobytes() != y.tobytes() for x, y in zip(r, (c0, c1, c2, c3))):
+                    fails.append(fail("components_passthrough", f"class {cls}: planes given as {cname} ({m}x{n}) do not come back unchanged", cls=cls, container=cname, **tags))
             ok, r = call(solver._quat_to_components, to_sparse(lib, A))
             evals += 1
             if not ok or any(not np.array_equal(np.asarray(x), y) for x, y in zip(r, (c0, c1, c2, c3))):
